@@ -166,8 +166,7 @@ pub fn classify(e: &Xerr) -> String {
         Xerr::StackUnderflow => "Underflow".into(),
         Xerr::TypeError | Xerr::TypeErrorMsg { .. } | Xerr::TypeNotSupported { .. } => "Type".into(),
         Xerr::LoopStackUnderflow => "LoopUnderflow".into(),
-        Xerr::ErrorMsg(s) if s.starts_with("local variable") => "Unbound".into(),
-        Xerr::ErrorMsg(s) if s.starts_with("insn limit") => "Fuel".into(),
+        e if is_limit_error(e, "insn") => "Fuel".into(),
         other => format!("Other({})", err_kind(other)),
     }
 }
@@ -268,7 +267,7 @@ pub fn run(cfg: &Cfg) -> i32 {
     let total_nontriv = AtomicU64::new(0);
     let outcomes = Counters::new();
     let mut per_stratum = vec![];
-    let deadline = std::time::Instant::now() + std::time::Duration::from_secs(if cfg.quick() { 40 } else { 3000 });
+    let deadline = std::time::Instant::now() + std::time::Duration::from_secs(if cfg.quick() { 600 } else { 7200 });
     let only = std::env::var("VERIF_C01_ONLY").ok();
     let nodes_override: Option<usize> = std::env::var("VERIF_C01_NODES").ok().and_then(|s| s.parse().ok());
     for mut st in strata(cfg.quick()) {
